@@ -47,10 +47,15 @@ func (s *Server) HandleBefore(
 		}
 	}
 
+	key := [8]byte{}
+	binary.BigEndian.PutUint64(key[:], pctx.RequestID)
 	if clientID != "" {
-		key := [8]byte{}
-		binary.BigEndian.PutUint64(key[:], pctx.RequestID)
 		s.clientIDCache.Set(key[:], []byte(clientID))
+	} else {
+		// Request IDs are only unique within one proxy instance, so make sure
+		// that the ClientID of a request that had the same ID before the
+		// proxy has been recreated isn't used for this one.
+		s.clientIDCache.Del(key[:])
 	}
 
 	return nil
